@@ -12,12 +12,14 @@ arrays, ascending non-overlapping runs, stored cardinality equal to the number o
 ascending; empty and nil containers are allowed).  All theorems are unbounded (induction); the
 helper lemmas live in Lemmas*.lean.
 
-What is NOT covered by these theorems (kept as `_partial`, see design/C01.md): the word / mask /
-popcount arithmetic inside the bitmap-encoding kernels.  A bitmap container is modelled by its
-set of bit positions plus the separately stored cardinality, so for pairings involving a bitmap
-operand the theorems cover the encoding dispatch, the cardinality bookkeeping and the choice of
-result encoding, but not the 64-bit word manipulation (tied to the code by the correspondence
-check only).
+The bitmap encoding has two model levels: the set level (`Container.bitmap n bits`, used by the
+dispatchers and the Bitmap layer) and the word level of Words.lean (1024 words of 64 bits with the
+Go shift / mask / popcount arithmetic).  `C01_countRange_bitmap`, `C01_kernel_bitmap_words` and
+`C01_kernel_flip` prove that the word-level kernels `bitmapCountRange`, `bitmapSetRange`,
+`bitmapZeroRange`, `bitmapXorRange` (hence `unionBitmapRun`, `differenceBitmapRun`, `xorBitmapRun`,
+`intersectionCountBitmapRun`) and `flipBitmap` commute with the abstraction `absW`, including the
+stored cardinality.  What is still only modelled at set level is named in
+`C01_kernel_bitmap_rest_partial` (see design/C01.md).
 -/
 import PV.C01.LemmasDispatch
 import PV.C01.LemmasL2Iter
@@ -26,6 +28,7 @@ import PV.C01.LemmasL2Shift
 import PV.C01.LemmasDec
 import PV.C01.LemmasFlip
 import PV.C01.LemmasNary
+import PV.C01.LemmasWordsZip
 namespace PV.C01
 open Spec
 
@@ -58,15 +61,26 @@ theorem C01_countRange_array {xs : List Nat} (h : (Container.array xs).WF) (s e 
 
 example : (Container.array [1, 2, 3, 9]).WF := by decide
 
-/-- bitmap encoding: proved for the set-level model of `bitmapCountRange`; the partial-word
-shifts and popcounts of the Go function are excluded (correspondence only). -/
-theorem C01_countRange_bitmap_partial {n : Nat} {bits : List Nat} (h : (Container.bitmap n bits).WF)
-    (s e : Nat) (hse : s ≤ e) :
-    (Container.bitmap n bits).countRange s e = cnt (fun v => mem (.bitmap n bits) v) s e := by
-  rw [Container.countRange_spec h s e hse]
-  exact cnt_congr (fun v _ _ => (mem_eq h v).symm)
+/-- bitmap encoding, WORD level: `bitmapCountRange` with its same-word case
+`popcount((w >> offi) << (offj + offi))`, the partial first word `popcount(w >> off)`, the whole
+words in between and the partial last word `popcount(w << off)` counts exactly the set positions
+of `[s, e)`; and it is the set-level kernel on the abstraction.  (`e ≤ 65536`; the Go function
+indexes word 1024 for `s = e = 65536`, which its callers never pass.) -/
+theorem C01_countRange_bitmap {ws : List Nat} (h : WordsWF ws) (s e : Nat) (hse : s ≤ e) (he : e ≤ 65536) :
+    wCountRange ws s e = cnt (fun v => decide (v ∈ absW ws)) s e ∧
+    wCountRange ws s e = (Container.bitmap (absW ws).length (absW ws)).countRange s e := by
+  have he' : e ≤ 64 * ws.length := by rw [h.1]; omega
+  exact ⟨by rw [wCountRange_spec ws h.2 s e hse he', cnt_absW ws s e he'], wCountRange_refines h s e hse he⟩
 
-example : (Container.bitmap 3 [0, 64, 65535]).WF := by decide
+/-- the abstraction of well-formed words is a well-formed set-level bitmap container. -/
+theorem C01_words_abs {ws : List Nat} (h : WordsWF ws) : (Container.bitmap (absW ws).length (absW ws)).WF :=
+  ⟨sorted_absW ws, absW_lt h, rfl⟩
+
+example : WordsWF (List.replicate 1023 0 ++ [2 ^ 63 + 5]) := by
+  refine ⟨by rw [List.length_append, List.length_replicate]; rfl, fun w hw => ?_⟩
+  rcases List.mem_append.mp hw with h | h
+  · rw [List.eq_of_mem_replicate h]; exact Nat.two_pow_pos 64
+  · rw [List.mem_singleton.mp h]; decide
 
 /-! ## Container kernels, per encoding pair (array and run kernels follow the Go loops) -/
 
@@ -314,18 +328,87 @@ theorem C01_kernel_intersectionCount {a b : Container} (ha : a.WF) (hb : b.WF) :
 
 example : (Container.bitmap 2 [3, 9]).WF ∧ (Container.run 65536 [⟨0, 65535⟩]).WF ∧ (Container.array []).WF := by decide
 
-/-- T2 obligation kept visible: for a bitmap operand the four theorems above are statements about
-the set-level model of `intersectBitmapBitmap`, `unionBitmapRun` (`bitmapSetRange`),
-`differenceBitmapRun` (`bitmapZeroRange`), `xorBitmapRun` (`bitmapXorRange`), `intersectBitmapRun`,
-`differenceRunBitmap`, ...: dispatch, `n` bookkeeping and result encoding are covered, the 64-bit
-word arithmetic is not. -/
-theorem C01_kernel_bitmap_words_partial {na nb : Nat} {ba bb : List Nat}
-    (ha : (Container.bitmap na ba).WF) (hb : (Container.bitmap nb bb).WF) :
-    (∀ v, memO (intersect (.bitmap na ba) (.bitmap nb bb)) v = (decide (v ∈ ba) && decide (v ∈ bb))) ∧
-    (∀ v, mem (union (.bitmap na ba) (.bitmap nb bb)) v = (decide (v ∈ ba) || decide (v ∈ bb))) := by
-  refine ⟨fun v => ?_, fun v => ?_⟩
-  · rw [(C01_kernel_intersect ha hb).2.1 v, mem_eq ha, mem_eq hb]; rfl
-  · rw [(C01_kernel_union ha hb).2.1 v, mem_eq ha, mem_eq hb]; rfl
+/-- WORD level of the range kernels: `unionBitmapRun` (one `bitmapSetRange` per run),
+`differenceBitmapRun` (`bitmapZeroRange`), `xorBitmapRun` (`bitmapXorRange`) and
+`intersectionCountBitmapRun` (`bitmapCountRange` per run) with the masks
+`X = maxBitmap << (i % 64)`, `Y = maxBitmap >> (63 - (j-1) % 64)`, the one-word / first / middle /
+last word cases and the popcount bookkeeping of `n`: the resulting words are well-formed, their
+abstraction is the set operation of the set-level model, and the stored `n` is its cardinality. -/
+theorem C01_kernel_bitmap_words {ws : List Nat} {rb : List Iv} {n : Nat} (h : WordsWF ws) (hr : RunsWF rb)
+    (hn : n = (absW ws).length) :
+    (WordsWF (wUnionRunsN n ws rb).2 ∧ absW (wUnionRunsN n ws rb).2 = Spec.union (absW ws) (runValues rb) ∧
+      (wUnionRunsN n ws rb).1 = (absW (wUnionRunsN n ws rb).2).length ∧
+      ∀ v, v ∈ absW (wUnionRunsN n ws rb).2 ↔ (v ∈ absW ws ∨ v ∈ runValues rb)) ∧
+    (WordsWF (wDiffRunsN n ws rb).2 ∧ absW (wDiffRunsN n ws rb).2 = Spec.diff (absW ws) (runValues rb) ∧
+      (wDiffRunsN n ws rb).1 = (absW (wDiffRunsN n ws rb).2).length ∧
+      ∀ v, v ∈ absW (wDiffRunsN n ws rb).2 ↔ (v ∈ absW ws ∧ v ∉ runValues rb)) ∧
+    (WordsWF (wXorRunsN n ws rb).2 ∧ absW (wXorRunsN n ws rb).2 = Spec.xor (absW ws) (runValues rb) ∧
+      (wXorRunsN n ws rb).1 = (absW (wXorRunsN n ws rb).2).length ∧
+      ∀ v, v ∈ absW (wXorRunsN n ws rb).2 ↔ ((v ∈ absW ws ∧ v ∉ runValues rb) ∨ (v ∉ absW ws ∧ v ∈ runValues rb))) ∧
+    wIntersectionCountRuns ws rb = intersectionCountBitmapRun (absW ws) rb := by
+  have hs := sorted_absW ws
+  have hrs := runValues_sorted hr
+  have U := wUnionRunsN_spec rb n ws h hr hn
+  have D := wDiffRunsN_spec rb n ws h hr hn
+  have X := wXorRunsN_spec rb n ws h hr hn
+  have U' := wUnionRuns_refines h hr
+  have D' := wDiffRuns_refines h hr
+  have X' := wXorRuns_refines h hr
+  refine ⟨⟨?_, ?_, ?_, fun v => ?_⟩, ⟨?_, ?_, ?_, fun v => ?_⟩, ⟨?_, ?_, ?_, fun v => ?_⟩,
+    wIntersectionCountRuns_refines h rb hr⟩
+  · rw [U.1]; exact U'.1
+  · rw [U.1]; exact U'.2
+  · rw [U.2, U.1]
+  · rw [U.1, U'.2]; exact mem_union hs hrs v
+  · rw [D.1]; exact D'.1
+  · rw [D.1]; exact D'.2
+  · rw [D.2, D.1]
+  · rw [D.1, D'.2]; exact mem_diff hs hrs v
+  · rw [X.1]; exact X'.1
+  · rw [X.1]; exact X'.2
+  · rw [X.2, X.1]
+  · rw [X.1, X'.2]; exact mem_xor hs hrs v
+
+example : RunsWF [⟨5, 64⟩, ⟨128, 128⟩, ⟨4090, 65535⟩] := by decide
+
+/-- WORD level of the bitmap × bitmap kernels (`intersectBitmapBitmap`, `unionBitmapBitmap`,
+`differenceBitmapBitmap`, `xorBitmapBitmap`): `ob[i] = ab[i] op bb[i]` with `n += popcount(ob[i])`
+is the set operation on the abstractions with the right cardinality. -/
+theorem C01_kernel_bitmap_bitmap_words {a b : List Nat} (ha : WordsWF a) (hb : WordsWF b) :
+    (WordsWF (wAndN a b).2 ∧ absW (wAndN a b).2 = Spec.inter (absW a) (absW b) ∧ (wAndN a b).1 = (absW (wAndN a b).2).length) ∧
+    (WordsWF (wOrN a b).2 ∧ absW (wOrN a b).2 = Spec.union (absW a) (absW b) ∧ (wOrN a b).1 = (absW (wOrN a b).2).length) ∧
+    (WordsWF (wAndNotN a b).2 ∧ absW (wAndNotN a b).2 = Spec.diff (absW a) (absW b) ∧
+      (wAndNotN a b).1 = (absW (wAndNotN a b).2).length) ∧
+    (WordsWF (wXorN a b).2 ∧ absW (wXorN a b).2 = Spec.xor (absW a) (absW b) ∧ (wXorN a b).1 = (absW (wXorN a b).2).length) :=
+  ⟨wAndN_refines ha hb, wOrN_refines ha hb, wAndNotN_refines ha hb, wXorN_refines ha hb⟩
+
+/-- What is still modelled at set level only (tied to the code by correspondence + spec oracle):
+the single-bit
+updates of `intersectArrayBitmap` / `unionArrayBitmap` / `differenceBitmapArray` / `xorArrayBitmap`,
+the lowest-set-bit extraction loop of `bitmapToArray`, `bitmapCountRuns` / `bitmapToRun`, the
+bitmap branch of `intersectBitmapRun`, `shiftBitmap`, `bitmapMax`.  Missing lemmas, by name:
+`wBitUpdate_refines` (`bitmap[v/64] |= 1 << (v%64)` and `&^=` commute with `absW`), `wBitmapToArray_refines` (`t = w & -w`, `popcount(t-1)` is the index of the lowest
+set bit), `wCountRuns_refines` (`popcount((v << 1) &^ v) + ((v >> 63) &^ v1)` counts run starts),
+`wBitmapToRun_refines`, `wIntersectBitmapRun_refines`, `wShift_refines`.  The statement proved here is
+the set-level one for the conversions. -/
+theorem C01_kernel_bitmap_rest_partial {n : Nat} {bits : List Nat} (h : (Container.bitmap n bits).WF) :
+    ((bitmapToArray n bits).WF ∧ (bitmapToArray n bits).values = bits) ∧
+    ((bitmapToRun n bits).WF ∧ ∀ v, v ∈ (bitmapToRun n bits).values ↔ v ∈ bits) ∧
+    (Container.bitmap n bits).countRuns = (arrayToRunIvs bits).length := by
+  refine ⟨bitmapToArray_spec h, ?_, arrayCountRuns_eq bits h.1⟩
+  have S := arrayToRunIvs_spec bits h.1 h.2.1
+  unfold bitmapToRun
+  by_cases h0 : n = 0
+  · rw [if_pos h0]
+    have : bits = [] := by
+      have := h.2.2; rw [h0] at this
+      exact List.length_eq_zero_iff.mp this.symm
+    subst this
+    exact ⟨⟨trivial, rfl⟩, fun v => by simp [Container.values, runValues]⟩
+  · rw [if_neg h0]
+    refine ⟨⟨S.1, by rw [S.2.2]; exact h.2.2⟩, fun v => ?_⟩
+    show v ∈ runValues (arrayToRunIvs bits) ↔ _
+    rw [mem_runValues, S.2.1 v]; simp
 
 /-! ## shift, flip, max, conversions -/
 
@@ -334,8 +417,23 @@ theorem C01_kernel_shift {c : Container} (h : c.WF) :
     WFO (shift c).1 ∧ (∀ w, w ∈ valuesO (shift c).1 ↔ (1 ≤ w ∧ w < 65536 ∧ w - 1 ∈ c.values)) ∧
     ((shift c).2 = true ↔ 65535 ∈ c.values) := shift_spec h
 
-/-- `flip`: the complement inside the container (always a bitmap; set-level model). -/
-theorem C01_kernel_flip_partial {c : Container} (h : c.WF) :
+/-- `flip` / `flipBitmap`, WORD level: every word is complemented and the cardinality is recounted
+with `bitmapCountRange(0, 65536)`; the result denotes the complement inside the container, and it
+is the set-level `flip` on the abstraction. -/
+theorem C01_kernel_flip {ws : List Nat} (h : WordsWF ws) :
+    WordsWF (wFlipN ws).2 ∧ (wFlipN ws).1 = (absW (wFlipN ws).2).length ∧
+    (∀ v, v ∈ absW (wFlipN ws).2 ↔ (v < 65536 ∧ v ∉ absW ws)) ∧
+    absW (wFlipN ws).2 = (flip (Container.bitmap (absW ws).length (absW ws))).values := by
+  have R := wFlip_refines h
+  have C := compl16_spec (sorted_absW ws)
+  refine ⟨wFlip_wf h, wFlipN_spec h, fun v => ?_, ?_⟩
+  · show v ∈ absW (wFlip ws) ↔ _
+    rw [R]; exact C.2.2 v
+  · show absW (wFlip ws) = _
+    rw [R]; rfl
+
+/-- the set-level `flip` of any container (arrays and runs are converted to a bitmap first). -/
+theorem C01_container_flip {c : Container} (h : c.WF) :
     (flip c).WF ∧ ∀ v, v ∈ (flip c).values ↔ (v < 65536 ∧ v ∉ c.values) :=
   flipBitmap_spec (Container.values_sorted h)
 
